@@ -798,6 +798,70 @@ def _digest(rho):
     return [[float("%.5g" % x) for x in d], float("%.4g" % numpy.max(numpy.abs(off)))]
 
 
+# ----------------------------------------------------------------------------
+# ratio clause on WEAKLY populated levels (relative, in the defining basis)
+# ----------------------------------------------------------------------------
+# The class R clause above admits an absolute 1e-10 on every population (what a state that went
+# through basis changes carries), so a level whose Boltzmann population is below that is only
+# required to be "small".  The statement demands the RATIO exp(-(E_a-E_b)/kT): here the state is
+# read by the library itself in the basis in which it is defined (inside eigenbasis_of(H)) and
+# every level whose reference population is representable (x_a = (E_a-E_0)/kT < EIG_XMAX) is
+# compared RELATIVELY.  Admitted besides the relative terms of the class R clause: the rounding
+# of the round trip eigenbasis -> site basis -> eigenbasis, which reaches level a only from
+# levels b whose eigenvectors overlap with it in support,
+#     C * eps * sum_b M_ab^2 p_b,   M_ab = sum_i |U_ia||U_ib|,  C = EIG_C * n
+# (exactly zero between levels that the diagonalisation does not mix, e.g. vibrational levels of
+# the electronic ground state vs. the excited block).  Only requests made outside any context or
+# inside eigenbasis_of(H): a request inside another basis X takes the state through a
+# transformation that mixes all levels (absolute noise eps * p_0 everywhere, class R).
+EIG_RATIO_CTXS = ("out", "inH")
+EIG_XMAX = 600.0
+EIG_C = 256.0
+
+
+def _read_in_eigenbasis(op, Hop):
+    qr = isolation.qr()
+    with qr.eigenbasis_of(Hop):
+        return numpy.array(op.data, dtype=complex)
+
+
+def _check_eigen_ratio(acc, rtag, ctx, op, Hop, H0, U, T):
+    """Relative Boltzmann clause on the populations the library reports in eigenbasis_of(H)."""
+    if T == 0 or ctx not in EIG_RATIO_CTXS:
+        return
+    R = _read_in_eigenbasis(op, Hop)
+    if R.shape != H0.shape or not numpy.all(numpy.isfinite(R)):
+        return                      # reported by the validity clauses
+    n = H0.shape[0]
+    en = numpy.real(numpy.einsum("ia,ij,ja->a", U.conj(), H0, U))
+    # the library sorts its eigenbasis by energy as the reference does; populations are
+    # compared level by level after sorting both by energy (degenerate levels carry equal ones)
+    order = numpy.argsort(en, kind="stable")
+    en = en[order]
+    Us = numpy.abs(U[:, order])
+    p = numpy.real(numpy.diag(R))
+    logp, x = BZ.log_populations(en, T)
+    with numpy.errstate(under="ignore"):
+        pref = numpy.exp(logp)
+    rel = numpy.expm1(1e-9 + BZ.log_slack(logp, x)
+                      + BZ.conditioning(float(numpy.max(numpy.abs(H0))), T))
+    M = Us.T @ Us
+    noise = EIG_C * n * numpy.finfo(float).eps * ((M * M) @ pref)
+    allowed = pref * rel + noise
+    sel = numpy.nonzero(x < EIG_XMAX)[0]
+    worst, wa = 0.0, None
+    for a in sel:
+        e = abs(p[a] - pref[a]) / allowed[a]
+        if e > worst:
+            worst, wa = float(e), int(a)
+    acc.seen("eigen_ratio_excess", worst)
+    if worst > 1.0:
+        acc.add("boltzmann/%s/weakly-populated-level-not-in-ratio" % rtag,
+                "T=%g (requested %s): level %d, (E-E0)/kT = %.2f, population read in "
+                "eigenbasis_of(H) %.6e, Boltzmann %.6e (%.3g x allowed)"
+                % (T, ctx, wa, x[wa], p[wa], pref[wa], worst))
+
+
 UNSUPPORTED = ("strong-coupling equilibrium without relaxation_hamiltonian needs site "
                "reorganisation energies from a bath and a purely electronic aggregate")
 
@@ -1099,7 +1163,9 @@ def _eval_aggregate_rdm(case):
                 continue
             Hop = agg.get_Hamiltonian()      # (rebuild makes a new operator)
         try:
-            rho = _request(ctx, lambda: agg.get_thermal_ReducedDensityMatrix(), Hop, Xmat, Xcmat)
+            held = []
+            rho = _request(ctx, lambda: (held.append(agg.get_thermal_ReducedDensityMatrix()),
+                                         held[-1])[1], Hop, Xmat, Xcmat)
         except isolation.HarnessError:
             raise
         except Exception as e:
@@ -1132,6 +1198,8 @@ def _eval_aggregate_rdm(case):
         states[ctx] = rho
         r = _boltzmann_in_basis(rho, H0, U, 0, T, cond_slack=_cond_slack(ctx, condn))
         ambiguous = ambiguous or r["degenerate_T0"]
+        if not hist:
+            _check_eigen_ratio(acc, rtag, ctx, held[-1], Hop, H0, U, T)
         if hist:
             _check_history(acc, tag, hist, rho, fresh, T, condn, r["degenerate_T0"])
         acc.seen("structure", r["structure"])
@@ -1185,7 +1253,9 @@ def _eval_molecule(case):
         _check_nondegenerate(case, numpy.linalg.eigvalsh(Xcmat))
         tag = "molecule/req-%s" % ctx
         try:
-            rho = _request(ctx, lambda: m.get_thermal_ReducedDensityMatrix(), Hop, Xmat, Xcmat)
+            held = []
+            rho = _request(ctx, lambda: (held.append(m.get_thermal_ReducedDensityMatrix()),
+                                         held[-1])[1], Hop, Xmat, Xcmat)
         except isolation.HarnessError:
             raise
         except Exception as e:
@@ -1202,6 +1272,7 @@ def _eval_molecule(case):
         states[ctx] = rho
         r = _boltzmann_in_basis(rho, H0, U, 0, T, cond_slack=_cond_slack(ctx, condn))
         ambiguous = ambiguous or r["degenerate_T0"]
+        _check_eigen_ratio(acc, "molecule", ctx, held[-1], Hop, H0, U, T)
         acc.seen("structure", r["structure"])
         acc.seen("ratio_excess", r["ratio_excess"])
         acc.seen("ratio_abs", r["ratio_abs"])
